@@ -386,6 +386,8 @@ func runC18(p *core.Prog, r *core.Report, tier string) {
 		}
 	}
 	c18Fetcher(p, r, ds)
+	// (g) the retention window is measured from the epoch that has started: the clock the cleaner uses never rounds up
+	checkChainTimeTruncates(p, r, "C18.g", "shortly before an epoch boundary the cleaner's cut-off moves a whole epoch forward and entries still inside the retention window are removed")
 }
 
 // c18Fetcher: the header provider the cache falls back on answers the request it was given. In the strategies
